@@ -45,6 +45,8 @@ use crate::quil::Quil;
 pub use self::calibration::{
     CalibrationExpansion, CalibrationExpansionOutput, CalibrationSource, Calibrations,
 };
+#[cfg(rigetti_quil_rs_verif)]
+pub use self::calibration::verif_hooks as calibration_verif_hooks;
 pub use self::calibration_set::CalibrationSet;
 pub use self::defgate_sequence_expansion::DefGateSequenceExpansion;
 pub use self::error::{
